@@ -71,6 +71,8 @@ class Address:
             self.decode_address(args[0])
         elif len(args) == 2:
             self.decode_address(args[1])
+            if (not isinstance(args[0], int)) or (args[0] < 0) or (args[0] >= 65535):
+                raise ValueError("network out of range")
             if self.addrType == Address.localStationAddr:
                 self.addrType = Address.remoteStationAddr
                 self.addrNet = args[0]
